@@ -1126,6 +1126,171 @@ def probe_receive(ctx):
     ctx.extra["receive_probe_counts"] = stats
 
 
+def probe_orientation(ctx):
+    """set_orientation with x-axes that are slightly non-perpendicular to z: |z.x| from 1e-9 up to just below and just
+    above the tolerance np.isclose(., 0, rtol=0) = 1e-8, and beyond.  Within the tolerance the stored axes must be the
+    normalised requested ones (z_axis exactly: a dipole's response must not depend on x); beyond it ValueError."""
+    import pyrex
+    rng = ctx.rng
+    mk = Maker(rng)
+    stats = {"accepted": 0, "refused": 0, "by_overlap": {}}
+    overlaps = [0.0, 1e-9, 5e-9, 0.99e-8, 1.01e-8, 2e-8, 1e-7, 1e-6, 1e-5, 5e-5, 0.99e-4, 2e-4, 1e-2]
+    for it in range(ctx.n(40, 800)):
+        cls = rng.choice(["Antenna", "DipoleAntenna", "DipoleAntenna"])
+        p = mk.params(cls)
+        ant = mk.build(p)
+        obj = mk.wrap(ant) if rng.random() < 0.4 else ant
+        z, x = rand_frame(rng)
+        ov_ = overlaps[it % len(overlaps)] * rng.choice([1.0, -1.0])
+        eps_ = ov_ / math.sqrt(max(1 - ov_ * ov_, 1e-300))               # (x + eps z).z / |x + eps z| = ov_
+        xr = (x + eps_ * z) * rng.choice([1.0, 3.0])
+        zr = z * rng.choice([1.0, 0.5])
+        zn, xn = zr / np.linalg.norm(zr), xr / np.linalg.norm(xr)
+        dot = abs(float(np.dot(zn, xn)))
+        if abs(dot - 1e-8) < 1e-12:
+            continue
+        rep = {"kind": "orientation", "params": p, "through_system": obj is not ant, "z": [float(v) for v in zr], "x": [float(v) for v in xr], "overlap": dot}
+        ctx.case(key=("orientation", it))
+        kk = "%.0e" % abs(ov_)
+        stats["by_overlap"][kk] = stats["by_overlap"].get(kk, 0) + 1
+        try:
+            obj.set_orientation(z_axis=zr, x_axis=xr)
+            raised = False
+        except ValueError:
+            raised = True
+        if dot > 1e-8:
+            stats["refused"] += 1
+            if not raised:
+                ctx.fail("orientation-accepted:%s:%s" % (cls, kk), "%s.set_orientation accepted an x-axis with |z.x| = %.3g > 1e-8 (axes must be perpendicular)" % (cls, dot), rep)
+            continue
+        stats["accepted"] += 1
+        if raised:
+            ctx.fail("orientation-refused:%s:%s" % (cls, kk), "%s.set_orientation refused an x-axis with |z.x| = %.3g <= 1e-8" % (cls, dot), rep)
+            continue
+        ez = float(np.max(np.abs(np.asarray(ant.z_axis, float) - zn)))
+        ex = float(np.max(np.abs(np.asarray(ant.x_axis, float) - xn)))
+        if not (ez <= 4 * EPS and ex <= 4 * EPS):
+            ctx.fail("orientation-axes:%s:%s" % (cls, kk), "%s.set_orientation stored axes that are not the normalised requested ones (z off by %.3g, x off by %.3g) for |z.x| = %.3g" % (cls, ez, ex, dot), rep)
+            continue
+        # the response uses the requested z-axis
+        times, xv = rand_signal_data(rng, 8)
+        direction, pol = rand_unit(rng), rand_unit(rng)
+        with np.errstate(all="ignore"):
+            out = obj.apply_response(make_signal(times, xv, 1), direction=direction, polarization=pol, force_real=True)
+        fx, hmax = oracle_filter(times, xv, response_H(p), True)
+        d, pg, dd, pp = expected_gains(_Axes(zn, xn, ant.position), p, direction, pol)
+        af, eff = antenna_factor_expected(p)
+        want = fx * d * pg * eff
+        tol = filter_tol(xv, hmax, d * pg * eff) + (dd * abs(pg) + abs(d) * pp + 64 * EPS * abs(d * pg)) * eff * max(float(np.max(np.abs(fx))), float(np.max(np.abs(xv)))) + 1e-9 * float(np.max(np.abs(want))) + 1e-300
+        # the accepted non-orthogonality enters the polar angle through r^2 = x^2 + y^2 + z^2 = 1 + O(|z.x|):
+        # |delta sin(theta)| <= |z.x| cos^2(theta) / sin(theta) to first order (factor 2 kept as margin)
+        tol += 2 * dot / max(abs(d), 1e-9) * abs(pg) * eff * float(np.max(np.abs(fx)))
+        if not float(np.max(np.abs(np.asarray(out.values, float) - want))) <= tol:
+            ctx.fail("orientation-response:%s:%s" % (cls, kk), "%s: after set_orientation with |z.x| = %.3g the response does not follow the requested z-axis" % (cls, dot), rep)
+    ctx.extra["orientation_probe_counts"] = stats
+
+
+def probe_shared_signal(ctx):
+    """ONE signal object (FunctionSignal with one or two function groups, or a plain Signal) handed to several antennas, or
+    several times to the same antenna, through apply_response / receive, directly and through AntennaSystem: every
+    response is judged by the independent oracle for that antenna alone, and the caller's signal must stay what it was."""
+    import pyrex
+    rng = ctx.rng
+    mk = Maker(rng)
+    stats = {"histories": 0, "uses": 0, "by_input": {}, "same_antenna_twice": 0}
+    for it in range(ctx.n(40, 800)):
+        n = rng.choice([4, 8, 16, 32])
+        times, xv = rand_signal_data(rng, n)
+        dt = times[1] - times[0]
+        vt = rng.choice([1, 2])
+        ikind = rng.choice(["function", "function", "function:sum", "signal"])
+        ty = pyrex.Signal.Type(vt)
+        if ikind == "signal":
+            sig, known = pyrex.Signal(times, xv, value_type=ty), np.asarray(xv, float)
+            desc_in = {"input": "signal", "values": [float(v) for v in xv]}
+        else:
+            fps = []
+            for _g in range(2 if ikind.endswith("sum") else 1):
+                fps.append({"amp": 10 ** rng.uniform(-2, 2), "tc": float(times[0] + rng.uniform(0.2, 0.8) * n * dt), "w": float(rng.uniform(1, 3) * dt),
+                            "f0": float(rng.uniform(0.05, 0.3) / dt)})
+            sig = pyrex.FunctionSignal(times, pulse_fn(fps[0]), value_type=ty)
+            known = pulse_fn(fps[0])(times)
+            if len(fps) == 2:
+                sig = sig + pyrex.FunctionSignal(times, pulse_fn(fps[1]), value_type=ty)
+                known = known + pulse_fn(fps[1])(times)
+            desc_in = {"input": ikind, "functions": fps}
+        stats["by_input"][ikind] = stats["by_input"].get(ikind, 0) + 1
+        # two antennas with different bands / gains; dipoles and the phi-dependent subclass change a signal visibly
+        ants = []
+        for _a in range(2):
+            cls = rng.choice(["DipoleAntenna", "DipoleAntenna", "ProbeAntenna", "Antenna"])
+            p = mk.params(cls)
+            if cls == "DipoleAntenna":
+                p["center_frequency"] = rng.uniform(0.08, 0.3) / dt
+                p["bandwidth"] = p["center_frequency"] * rng.choice([0.3, 0.8])
+            a_ = mk.build(p)
+            ants.append((p, a_, mk.wrap(a_)))
+        stats["histories"] += 1
+        uses, prev = [], None
+        for step in range(rng.randint(2, 4)):
+            ai = rng.choice([0, 1]) if step else 0
+            if prev == ai:
+                stats["same_antenna_twice"] += 1
+            prev = ai
+            p, a_, sys_ = ants[ai]
+            via = rng.random() < 0.5
+            op = rng.choice(["apply_response", "receive"])
+            direction = rand_unit(rng)
+            pol = rand_unit(rng) * rng.choice([1.0, 2.0])
+            fr = rng.random() < 0.5
+            uses.append({"antenna": ai, "op": op, "through_system": via, "direction": [float(v) for v in direction],
+                         "polarization": [float(v) for v in pol], "force_real": fr})
+            rep = {"kind": "shared_signal", "times": [float(t) for t in times], "value_type": vt, **desc_in,
+                   "antennas": [ants[0][0], ants[1][0]], "uses": [dict(u) for u in uses]}
+            ctx.case(key=("shared", it, step))
+            tgt = sys_ if via else a_
+            n0 = len(a_.signals)
+            try:
+                with np.errstate(all="ignore"):
+                    if op == "receive":
+                        tgt.receive(sig, direction=direction, polarization=pol, force_real=fr)
+                        out = a_.signals[-1] if len(a_.signals) == n0 + 1 else None
+                    else:
+                        out = tgt.apply_response(sig, direction=direction, polarization=pol, force_real=fr)
+                    got = None if out is None else np.asarray(out.values, float)
+            except Exception as ex:
+                ctx.fail("shared-raises:%s" % p["cls"], "%s.%s raised %r when given a signal that had been used before" % (p["cls"], op, ex), rep)
+                break
+            stats["uses"] += 1
+            if got is None:
+                ctx.fail("shared-receive-count:%s" % p["cls"], "receive did not store exactly one signal", rep)
+                break
+            fx, hmax = oracle_filter(times, known, response_H(p), fr)
+            d, pg, dd, pp = expected_gains(a_, p, direction, pol)
+            af, eff = antenna_factor_expected(p)
+            k = eff / (af if vt == 2 else 1.0)
+            want = fx * d * pg * k
+            sc = max(float(np.max(np.abs(fx))), float(np.max(np.abs(known))))
+            tol = 2 * filter_tol(known, hmax, d * pg * k) + (dd * abs(pg) + abs(d) * pp + 64 * EPS * abs(d * pg)) * abs(k) * sc + 1e-9 * float(np.max(np.abs(want))) + 1e-300
+            err = float(np.max(np.abs(got - want))) if len(got) == n else float("inf")
+            if not err <= tol:
+                ctx.fail("shared-response:%s:%s:%d" % (p["cls"], ikind, step),
+                         "use %d of the same %s object (%s by antenna %d, a %s%s): the response is not this antenna's filter x gains applied to the caller's signal (max error %.3g > %.3g)" % (
+                             step + 1, desc_in["input"], op, ai, p["cls"], " through AntennaSystem" if via else "", err, tol), rep)
+                break
+            with np.errstate(all="ignore"):
+                fresh = np.asarray(sig.copy().values, float)
+                cached = np.asarray(sig.values, float)
+            itol = 64 * EPS * float(np.max(np.abs(known))) * 2 + 1e-300
+            if not (np.array_equal(np.asarray(sig.times, float), times) and sig.value_type == ty
+                    and float(np.max(np.abs(fresh - known))) <= itol and float(np.max(np.abs(cached - known))) <= itol):
+                ctx.fail("shared-input-modified:%s:%s" % (p["cls"], ikind),
+                         "%s.%s modified the caller's %s (its values now differ from the original samples by %.3g)" % (
+                             p["cls"], op, desc_in["input"], float(max(np.max(np.abs(fresh - known)), np.max(np.abs(cached - known))))), rep)
+                break
+    ctx.extra["shared_signal_probe_counts"] = stats
+
+
 # ---------------------------------------------------------------------------- entry points
 def run(ctx):
     ctx.rule = ("correspondence cases: (class, constructor parameters, orientation, point / signal / value type / direction / polarization / force_real), "
@@ -1151,6 +1316,8 @@ def run(ctx):
         probes(ctx)
         probe_histories(ctx)
         probe_receive(ctx)
+        probe_orientation(ctx)
+        probe_shared_signal(ctx)
         return
     ok = ctx.coq_build("C08")
     if ok:
@@ -1161,19 +1328,57 @@ def run(ctx):
     probes(ctx)
     probe_histories(ctx)
     probe_receive(ctx)
+    probe_orientation(ctx)
+    probe_shared_signal(ctx)
 
 
 def replay(ctx, obj):
     import pyrex
     print(json.dumps(obj, indent=1, default=str)[:3000])
+    mk = Maker(ctx.rng)
+    if obj.get("kind") == "shared_signal":
+        times = np.asarray(obj["times"])
+        ty = pyrex.Signal.Type(obj["value_type"])
+        if obj["input"] == "signal":
+            sig, known = pyrex.Signal(times, np.asarray(obj["values"]), value_type=ty), np.asarray(obj["values"])
+        else:
+            fps = obj["functions"]
+            sig, known = pyrex.FunctionSignal(times, pulse_fn(fps[0]), value_type=ty), pulse_fn(fps[0])(times)
+            for fp in fps[1:]:
+                sig, known = sig + pyrex.FunctionSignal(times, pulse_fn(fp), value_type=ty), known + pulse_fn(fp)(times)
+        built = [mk.build(q) for q in obj["antennas"]]
+        for i, u in enumerate(obj["uses"]):
+            q, a_ = obj["antennas"][u["antenna"]], built[u["antenna"]]
+            tgt = mk.wrap(a_) if u["through_system"] else a_
+            if u["op"] == "receive":
+                tgt.receive(sig, direction=u["direction"], polarization=u["polarization"], force_real=u["force_real"])
+                out = a_.signals[-1]
+            else:
+                out = tgt.apply_response(sig, direction=u["direction"], polarization=u["polarization"], force_real=u["force_real"])
+            fx, _ = oracle_filter(times, known, response_H(q), u["force_real"])
+            d, pg, _, _ = expected_gains(a_, q, u["direction"], u["polarization"])
+            af, eff = antenna_factor_expected(q)
+            k = eff / (af if obj["value_type"] == 2 else 1.0)
+            print("use %d: %s by antenna %d (%s) -> %s\n        expected %s\n        caller's signal now (fresh evaluation) %s, originally %s" % (
+                i + 1, u["op"], u["antenna"], q["cls"], np.asarray(out.values)[:5], (fx * d * pg * k)[:5], np.asarray(sig.copy().values)[:5], known[:5]))
+        return 1
     if "params" not in obj:
         return 1
-    mk = Maker(ctx.rng)
     p = obj["params"]
     ant = mk.build(p)
     o = mk.wrap(ant) if obj.get("through_system") else ant
     print("antenna:", ant, "z_axis", ant.z_axis, "x_axis", ant.x_axis, "antenna_factor", ant.antenna_factor, "efficiency", ant.efficiency)
-    if "x" in obj:
+    if obj.get("kind") == "orientation":
+        try:
+            o.set_orientation(z_axis=obj["z"], x_axis=obj["x"])
+            print("set_orientation accepted; stored z_axis", ant.z_axis, "x_axis", ant.x_axis)
+        except ValueError as e:
+            print("set_orientation -> ValueError:", e)
+        zn, xn = np.asarray(obj["z"]) / np.linalg.norm(obj["z"]), np.asarray(obj["x"]) / np.linalg.norm(obj["x"])
+        print("requested (normalised) z", zn, "x", xn, "|z.x| = %.3g; expected: %s" % (abs(float(np.dot(zn, xn))),
+              "accepted with exactly these axes" if abs(float(np.dot(zn, xn))) <= 1e-8 else "ValueError"))
+        return 1
+    if "x" in obj and obj.get("kind") not in ("orientation", "shared_signal", "receive_components", "history"):
         times = np.asarray(obj["times"])
         for vt in [obj.get("value_type", 1), obj.get("bad_type", None)]:
             try:
